@@ -28,7 +28,11 @@ RULE = ("Hypothesis draws a *program*: 1-4 named input variables of dimension 1-
         "|err| <= rtol*|ref| + atol*M (M = sum of |terms| of the fully expanded chain rule, "
         "from absolute Taylor jets of the tree; float32 2e-5/5e-6, float64 1e-9/1e-12, plus an "
         "underflow floor 1e-30/1e-280); result shape as documented; result dtype = input "
-        "dtype; metamorphic row independence (row i alone, permuted batch). "
+        "dtype; metamorphic row independence (row i alone, permuted batch). laplacian is called "
+        "without grad= or (half of the cases, for ANY number of derivative variables) with the "
+        "precomputed gradient w.r.t. exactly the passed variables in the passed order, taken "
+        "either from the library's own grad(u, *vars) or assembled with torch.autograd (zeros "
+        "for a variable u does not depend on); the documented result is the same Laplacian. "
         "Non-trivial = the case reached the value comparison and (a product/function couples "
         ">= 2 components, or the function depends on a tracked variable that is not "
         "differentiated / a derivative variable is linear or unused, or >= 2 derivative "
@@ -41,6 +45,10 @@ ASSUMPTIONS = [
     "components as derivative-variable components in the passed order",
     "model_out is always the result of at least one tensor operation (never a leaf itself)",
     "expressions are bounded on the box by construction (explicit power-of-two scale constants)",
+    "laplacian's grad= argument ('the gradient has already been computed somewhere else') is "
+    "only ever given the true gradient of model_out w.r.t. the passed derivative variables, "
+    "concatenated along the last axis in the passed order (what grad(u, *vars) returns); a "
+    "gradient w.r.t. other variables / another order is outside the documented use",
     "CPU tensors only",
 ]
 BUDGET = {"quick": {"examples": 375, "workers": 4},
@@ -219,7 +227,10 @@ def _case(draw, tier):
             "row": draw(st.integers(0, 26)),
             "rng": draw(st.integers(0, 2 ** 31 - 1))}
     if op == "laplacian":
-        spec["use_grad"] = len(dvars) == 1 and draw(st.booleans())
+        # precomputed gradient for any number of derivative variables (single variable: the
+        # gradient is used; several: the library has to recompute / select per variable)
+        spec["use_grad"] = draw(st.booleans())
+        spec["grad_src"] = draw(st.sampled_from(["autograd", "lib"]))
     if op == "convective":
         modes = ["random", "random", "vars"] + (["u"] if out_shape[0] == D else [])
         spec["vmode"] = draw(st.sampled_from(modes))
@@ -274,6 +285,26 @@ def extra_cases(tier, seed):
                 if op == "convective":
                     spec["vmode"] = "random"
                 yield spec
+    # laplacian with a precomputed gradient AND several derivative variables (each feature
+    # alone takes a different code path): both orders, three variables, both gradient sources,
+    # both precisions, rank-2 and rank-3 batches; mixed program and a separable one (for which
+    # every mixed second derivative vanishes while the pure ones do not)
+    dims, _, out_shape, trees = _fixed_program("laplacian")
+    x0, x1, t, y = _v(0, 0), _v(0, 1), _v(1, 0), _v(2, 0)
+    sep = ["+", ["*", ["pow", x0, 2], ["pow", x1, 3]],
+           ["+", ["sin", ["*", ["c", 2.0], t]], ["exp", ["*", ["c", 0.5], y]]]]
+    pinned = [([1, 0], [5], "float32", "lib", trees), ([0, 1], [5], "float64", "autograd", trees),
+              ([2, 0, 1], [4], "float64", "lib", trees), ([0, 1], [2, 3], "float32", "lib", trees),
+              ([1, 2], [3], "float32", "autograd", trees),
+              ([0, 1], [4], "float32", "lib", [sep]), ([1, 0], [4], "float64", "lib", [sep]),
+              ([1, 0, 2], [2, 2], "float64", "autograd", [sep]),
+              ([0], [5], "float32", "lib", trees), ([1], [2, 3], "float64", "autograd", [sep])]
+    for dv, batch, dtype, src, tr in pinned:
+        i += 1
+        yield {"op": "laplacian", "dtype": dtype, "dims": dims, "dvars": dv, "batch": batch,
+               "out_shape": out_shape, "exprs": tr, "mode": "fixed", "roles": {},
+               "lattice": False, "row": i, "rng": 1000 * seed + i, "use_grad": True,
+               "grad_src": src}
     # separable quadratic baseline (the class the unit tests use)
     sq = ["+", ["pow", _v(0, 0), 2], ["*", ["c", 2.0], ["pow", _v(0, 1), 2]]]
     for op in ("grad", "laplacian"):
@@ -458,11 +489,24 @@ def _apply(spec, trees, data, aux):
         else:
             field = aux["field"]
         return fn(u, field, *dv)
-    if op == "laplacian" and spec.get("use_grad") and len(dv) == 1:
-        g = torch.autograd.grad(u.sum(), dv[0], create_graph=True, allow_unused=True)[0]
-        if g is not None:
-            return fn(u, dv[0], grad=g)
+    if op == "laplacian" and spec.get("use_grad"):
+        return fn(u, *dv, grad=_precomputed_grad(spec, u, dv))
     return fn(u, *dv)
+
+
+def _precomputed_grad(spec, u, dv):
+    """The gradient of u w.r.t. the passed variables in the passed order (with graph), i.e.
+    what a caller has at hand who "already computed the gradient somewhere else":
+    grad_src 'lib' = the library's grad(u, *vars); 'autograd' = assembled here per variable
+    (zeros for a variable u does not depend on, like grad does).
+    Specs without grad_src (written before it existed, single variable) mean 'autograd'."""
+    if spec.get("grad_src") == "lib":
+        return dop.grad(u, *dv)
+    parts = []
+    for z in dv:
+        g = torch.autograd.grad(u.sum(), z, create_graph=True, allow_unused=True)[0]
+        parts.append(torch.zeros_like(z) if g is None else g)
+    return parts[0] if len(parts) == 1 else torch.cat(parts, dim=-1)
 
 
 def _result_shape(spec):
@@ -552,6 +596,8 @@ def run_case(spec, ctx):
         classes.append("lattice")
     if spec.get("use_grad"):
         classes.append("laplacian-grad-arg")
+        classes.append(f"laplacian-grad-arg-{'multivar' if multi else 'onevar'}-"
+                       f"{spec.get('grad_src', 'autograd')}")
 
     if not isinstance(res, torch.Tensor):
         ctx.violation("type", op, f"result is {type(res).__name__}, not a tensor")
@@ -585,10 +631,14 @@ def run_case(spec, ctx):
     if not ratio <= 1.0:
         idx = np.unravel_index(int(np.argmax(np.where(np.isfinite(err), err, np.inf) / tol)),
                                err.shape)
-        ctx.violation("value", op,
+        # the grad= code path of laplacian is a separate mechanism -> separate signature
+        vfeature = "laplacian-grad-arg" if op == "laplacian" and spec.get("use_grad") else op
+        ctx.violation("value", vfeature,
                       f"entry {tuple(int(i) for i in idx)}: got {got[idx]!r}, analytic "
                       f"{expected[idx]!r}, |err|={err[idx]:.3e} > tol {tol[idx]:.3e}; "
-                      f"dvars={dvars} dims={dims} batch={batch}")
+                      f"dvars={dvars} dims={dims} batch={batch}"
+                      + (f" grad=<{spec.get('grad_src', 'autograd')} gradient>"
+                         if spec.get("use_grad") else ""))
 
     # ---- metamorphic: row i alone, permuted batch
     def compare(label, other, ref_rows, tol_rows):
